@@ -3,6 +3,7 @@ CONSTANTS
   N = 4
   Nodes <- MCNodes
   R = 3
+  InitK = 3
   MaxEpoch = 6
   MaxID = 6
   G_OnePending = TRUE
